@@ -210,7 +210,7 @@ def exhaustive_graphs():
 
 def graphs(ctx):
     r = ctx.rng("graphs")
-    n = 2000 if ctx.quick else 40000
+    n = 2000 if ctx.quick else 20000
     gs = [gen_graph(r) for _ in range(n)]
     if not ctx.quick:
         gs += exhaustive_graphs()
@@ -441,7 +441,7 @@ def same_behaviour(x, y, cross_runtime=False):
 
 def programs(ctx):
     r = ctx.rng("programs")
-    n = 48 if ctx.quick else 800
+    n = 48 if ctx.quick else 500
     n = int(os.environ.get("VERIF_C05_NPROG", n))          # development knob only
     native_every = 3 if ctx.quick else 1
     model_every = 6 if ctx.quick else 15
@@ -734,6 +734,6 @@ LEVEL_TEXT = ("Machine-checked theorems over an executable model of dce.Info/Sel
               "(random graphs and the declaration graphs of real programs through the real Selector); the over-approximation hypothesis itself (filters.go names, "
               "recording call sites) is checked on generated programs by linking the same archives with and without DCE and by a static reference check of out.js.")
 LEVEL_NOTE = ("The proof covers the selection algorithm and the root rule; the adequacy of the recorded dependencies is a hypothesis of select_sound and is only "
-              "tested (48 programs quick / 800 thorough). Known findings: initialisers that can panic without a call/receive are eliminated (HasSideEffect) -- kept in the model "
+              "tested (48 programs quick / 500 thorough). Known findings: initialisers that can panic without a call/receive are eliminated (HasSideEffect) -- kept in the model "
               "and refuted in Props/C05.v; a self-referential inline type-parameter constraint "
               "overflows the stack in filters.go (not in the model). No axioms.")
